@@ -2649,6 +2649,12 @@ class Mailbox:
                 (time.monotonic() - start_time),
             )
             try:
+                # A UID set names no message of an empty mailbox (UIDs that
+                # do not exist are ignored): there is nothing to copy.
+                #
+                if uid_command and not self.msg_keys:
+                    return [], []
+
                 max_msg_key = self.msg_keys[-1]
                 uid_vv, uid_max = self.get_uid_from_msg(max_msg_key)
                 if uid_vv is None or uid_vv != self.uid_vv or uid_max is None:
